@@ -15,7 +15,7 @@ func init() {
 	register(&Property{
 		ID:          "C05",
 		NeedSSA:     true,
-		Decided:     "Structural necessary conditions: (indexer) every implementation of ColumnIndexer.IndexPage records the page unconditionally (observe dominates every exit) and gives minValues and maxValues exactly one entry on every path — an unconditional store whose value appends to the same field, never a conditional append and never a raw spread of a variable-length Value.byteArray(); byte-slice bounds kept in a [][]byte are copies; (wire) the values that reach IndexPage, the chunk statistics, the page statistics, the page locations and the level histograms come from the matching accessor of the page (NumValues, NumNulls, Bounds#0 → min, Bounds#1 → max, NumRows), chunk max is replaced only under Compare(max, existing) > 0 and chunk min only under < 0; (order) every indexer passes order(minValues), order(maxValues) in that order to the shared constructor, and boundaryOrderOf claims an order only when both agree; (reset) the per-row-group statistics state of a column writer is re-established by its reset (shared with C17.reset); (sorting) RowGroup.SortingColumns literals take Descending/NullsFirst from the declared sorting column. (boundary) the merged column index decides ascending/descending across chunks on the two pages adjacent to the boundary (last of the earlier chunk, first of the later one) and with the defining bounds (max/min for ascending, min/max for descending); (detach) the min/max arrays an indexer hands to the shared column-index constructor are freshly allocated, not the fields its Reset truncates. (delegate) every logical type that delegates NewColumnIndexer/NewColumnBuffer/NewDictionary/NewPage delegates all of them to the same source; (boundary, cont.) the later chunk of a boundary comparison is searched for with a scan that skips chunks made of null pages. (nanbounds) every Bounds method that orders floating-point values — it or what it calls in the module within two calls compares floats with < or >, or calls a bodyless kernel returning floats — also tests for NaN (v != v or math.IsNaN) in that scope, for plain and dictionary pages alike.",
+		Decided:     "Structural necessary conditions: (indexer) every implementation of ColumnIndexer.IndexPage records the page unconditionally (observe dominates every exit) and gives minValues and maxValues exactly one entry on every path — an unconditional store whose value appends to the same field, never a conditional append and never a raw spread of a variable-length Value.byteArray(); byte-slice bounds kept in a [][]byte are copies; (wire) the values that reach IndexPage, the chunk statistics, the page statistics, the page locations and the level histograms come from the matching accessor of the page (NumValues, NumNulls, Bounds#0 → min, Bounds#1 → max, NumRows), chunk max is replaced only under Compare(max, existing) > 0 and chunk min only under < 0; (order) every indexer passes order(minValues), order(maxValues) in that order to the shared constructor, and boundaryOrderOf claims an order only when both agree; (reset) the per-row-group statistics state of a column writer is re-established by its reset (shared with C17.reset); (sorting) RowGroup.SortingColumns literals take Descending/NullsFirst from the declared sorting column. (boundary) the merged column index decides ascending/descending across chunks on the two pages adjacent to the boundary (last of the earlier chunk, first of the later one) and with the defining bounds (max/min for ascending, min/max for descending); (detach) the min/max arrays an indexer hands to the shared column-index constructor are freshly allocated, not the fields its Reset truncates. (delegate) every logical type that delegates NewColumnIndexer/NewColumnBuffer/NewDictionary/NewPage delegates all of them to the same source; (boundary, cont.) the later chunk of a boundary comparison is searched for with a scan that skips chunks made of null pages. (nanbounds) every Bounds, MinValue or MaxValue method that orders floating-point values — it or what it calls in the module within two calls compares floats with < or >, or calls a bodyless kernel returning floats — also tests for NaN (v != v or math.IsNaN) in that scope, for plain pages, dictionary pages and the column indexes of in-memory pages alike.",
 		NotDecided:  "that the bounds are true bounds (truncation arithmetic, NaN handling, signed/unsigned order functions, SIMD min/max kernels); that counts are right as numbers; null handling inside the order functions.",
 		Assumptions: []string{"value flow is followed through phis, locals, conversions and arithmetic; accessor identity is resolved through go/types (interface method or static callee), never by text"},
 		Run:         runC05,
@@ -671,7 +671,7 @@ func sharedIndexerMethod(p *Prog, method string) *ssa.Function {
 	return best
 }
 
-// c05NaNBounds — NaN has no order: a Bounds method that orders floating-point
+// c05NaNBounds — NaN has no order: a Bounds, MinValue or MaxValue method that orders floating-point
 // values (it, or what it calls in the module within two calls, compares floats
 // with < or >, or calls a bodyless kernel that returns floats) also tests for
 // NaN (`v != v` or math.IsNaN) somewhere in that scope. Plain pages and
@@ -687,7 +687,7 @@ func c05NaNBounds(c *Ctx) {
 	}
 	n := 0
 	for _, fn := range p.ModuleSSAFuncs() {
-		if fn.Origin() != nil || fn.Blocks == nil || fn.Parent() != nil || fn.Name() != "Bounds" || fn.Signature.Recv() == nil || fnPkgPath(fn) != modPath {
+		if fn.Origin() != nil || fn.Blocks == nil || fn.Parent() != nil || !(fn.Name() == "Bounds" || fn.Name() == "MinValue" || fn.Name() == "MaxValue") || fn.Signature.Recv() == nil || fnPkgPath(fn) != modPath {
 			continue
 		}
 		scope := map[*ssa.Function]bool{fn: true}
